@@ -18,6 +18,28 @@ def mapOut {α β} (f : α → β) : Impl.Out α → Impl.Out β
   | .err e => .err e
   | .esc x => .esc x
 
+/-- forget the object an exception carries (used where the model says nothing about the state after an escape) -/
+def dropS {σ α} (r : Py.RS σ α) : Py.R α :=
+  match r with
+  | .ok a => .ok a
+  | .error (e, _) => .error e
+
+@[simp] theorem liftR_ok {σ α} (s : σ) (a : α) : Py.liftR s (.ok a : Py.R α) = .ok a := rfl
+@[simp] theorem liftR_error {σ α} (s : σ) (e : Py.Exc) : Py.liftR s (.error e : Py.R α) = .error (e, s) := rfl
+@[simp] theorem dropS_ok {σ α} (a : α) : dropS (.ok a : Py.RS σ α) = .ok a := rfl
+@[simp] theorem dropS_error {σ α} (e : Py.Exc) (s : σ) : dropS (.error (e, s) : Py.RS σ α) = .error e := rfl
+
+theorem dropS_bind {σ α β} (x : Py.RS σ α) (f : α → Py.RS σ β) :
+    dropS (x >>= f) = (dropS x >>= fun a => dropS (f a)) := by
+  cases x with
+  | ok a => rfl
+  | error es => cases es; rfl
+
+theorem rs_ok_bind {σ α β} (a : α) (f : α → Py.RS σ β) : ((.ok a : Py.RS σ α) >>= f) = f a := rfl
+theorem r_ok_bind {α β} (a : α) (f : α → Py.R β) : ((.ok a : Py.R α) >>= f) = f a := rfl
+theorem dropS_ite {σ α} (c : Prop) [Decidable c] (a b : Py.RS σ α) : dropS (if c then a else b) = if c then dropS a else dropS b := by
+  split <;> rfl
+
 theorem table_entry_size_tie (fuel : Nat) (n v : List UInt8) :
     Src.table_entry_size fuel n v = .ok ((32 + n.length + v.length : Nat) : Int) := by
   simp [Src.table_entry_size, Int.natCast_add]
@@ -35,8 +57,8 @@ theorem popRight_append_single {α} (xs : List α) (x : α) : Py.popRight (xs ++
 /-- the eviction loop: translated `_shrink` loop = `Impl.shrinkLoop`, for every table content, size counter and maximum -/
 theorem shrink_while_tie (maxsize : Nat) (res : Bool) (cs : Int) :
     ∀ (rev : List Impl.Entry) (cur : Int) (fuel : Nat), fuel > rev.length →
-      Src.HeaderTable.shrink.while1 fuel
-        { f_maxsize := (maxsize : Int), f_current_size := cs, f_resized := res, f_dynamic_entries := rev.reverse.map proj } cur =
+      dropS (Src.HeaderTable.shrink.while1 fuel
+        { f_maxsize := (maxsize : Int), f_current_size := cs, f_resized := res, f_dynamic_entries := rev.reverse.map proj } cur) =
       outToR (mapOut (fun r : List Impl.Entry × Int =>
         (({ f_maxsize := (maxsize : Int), f_current_size := cs, f_resized := res, f_dynamic_entries := r.1.reverse.map proj } : Src.HeaderTable), r.2))
         (Impl.shrinkLoop maxsize rev cur)) := by
@@ -59,7 +81,7 @@ theorem shrink_while_tie (maxsize : Nat) (res : Bool) (cs : Int) :
       · simp only [h, if_true, List.reverse_cons, List.map_append, List.map_cons, List.map_nil, popRight_append_single,
           bind, Except.bind]
         have hsz := table_entry_size_tie f (proj e).1 (proj e).2
-        simp only [hsz]
+        simp only [hsz, liftR_ok]
         have := ih (cur - Impl.entrySize e) f (by simp at hf; omega)
         simpa [proj, Impl.entrySize] using this
       · simp [h, outToR, mapOut]
@@ -69,12 +91,13 @@ def tableRes (r : Impl.Out Impl.Table) : Py.R (Src.HeaderTable × Unit) := outTo
 
 /-- `_shrink`: translated method = `Impl.Table.shrink` -/
 theorem shrink_tie (t : Impl.Table) (fuel : Nat) (hf : fuel > t.entries.length) :
-    Src.HeaderTable.shrink fuel (absT t) = tableRes t.shrink := by
+    dropS (Src.HeaderTable.shrink fuel (absT t)) = tableRes t.shrink := by
   unfold Src.HeaderTable.shrink Impl.Table.shrink tableRes
   have h := shrink_while_tie t.maxsize t.resized t.curSize t.entries.reverse t.curSize fuel (by simpa using hf)
   simp only [List.reverse_reverse] at h
   have habs : absT t = { f_maxsize := (t.maxsize : Int), f_current_size := t.curSize, f_resized := t.resized, f_dynamic_entries := t.entries.map proj } := rfl
-  simp only [habs, h, bind, Except.bind]
+  simp only [habs, dropS_bind, h]
+  simp only [bind, Except.bind]
   cases hl : Impl.shrinkLoop t.maxsize t.entries.reverse t.curSize with
   | ok r => simp [outToR, mapOut, absT]
   | err e => cases e <;> simp [outToR, mapOut]
@@ -82,9 +105,9 @@ theorem shrink_tie (t : Impl.Table) (fuel : Nat) (hf : fuel > t.entries.length) 
 
 /-- `HeaderTable.add`: translated method = `Impl.Table.add`, whatever the ownership tags of the two strings -/
 theorem add_tie (t : Impl.Table) (name value : Impl.PyBuf) (fuel : Nat) (hf : fuel > t.entries.length + 1) :
-    Src.HeaderTable.add fuel (absT t) name.bytes value.bytes = tableRes (t.add name value) := by
+    dropS (Src.HeaderTable.add fuel (absT t) name.bytes value.bytes) = tableRes (t.add name value) := by
   unfold Src.HeaderTable.add Impl.Table.add
-  simp only [table_entry_size_tie, bind, Except.bind]
+  simp only [table_entry_size_tie, liftR_ok, rs_ok_bind, dropS_ite, dropS_bind, dropS_ok]
   by_cases h : Impl.entrySize (name, value) > t.maxsize
   · have h' : ((32 + name.bytes.length + value.bytes.length : Nat) : Int) > (absT t).f_maxsize := by
       simp only [absT, Impl.entrySize] at h ⊢; omega
@@ -102,13 +125,13 @@ theorem add_tie (t : Impl.Table) (name value : Impl.PyBuf) (fuel : Nat) (hf : fu
     simp only [hs]
     unfold tableRes
     cases hl : Impl.Table.shrink ({ t with entries := (name, value) :: t.entries, curSize := t.curSize + Impl.entrySize (name, value) } : Impl.Table) with
-    | ok r => simp [outToR, mapOut]
-    | err e => cases e <;> simp [outToR, mapOut]
-    | esc x => cases x <;> simp [outToR, mapOut]
+    | ok r => simp [outToR, mapOut, bind, Except.bind]
+    | err e => cases e <;> simp [outToR, mapOut, bind, Except.bind]
+    | esc x => cases x <;> simp [outToR, mapOut, bind, Except.bind]
 
 /-- `HeaderTable.maxsize = newmax` for a non-negative `newmax`: translated setter = `Impl.Table.setMaxsize` -/
 theorem maxsize_set_tie (t : Impl.Table) (newmax : Nat) (fuel : Nat) (hf : fuel > t.entries.length) :
-    Src.HeaderTable.maxsize_set fuel (absT t) (newmax : Int) = tableRes (t.setMaxsize newmax) := by
+    dropS (Src.HeaderTable.maxsize_set fuel (absT t) (newmax : Int)) = tableRes (t.setMaxsize newmax) := by
   unfold Src.HeaderTable.maxsize_set Impl.Table.setMaxsize
   have hne : (decide ((newmax : Int) ≠ (absT t).f_maxsize)) = (newmax != t.maxsize) := by
     simp only [absT]
@@ -116,7 +139,7 @@ theorem maxsize_set_tie (t : Impl.Table) (newmax : Nat) (fuel : Nat) (hf : fuel 
     · simp [h]
     · have : (newmax : Int) ≠ (t.maxsize : Int) := by omega
       simp [h, this]
-  simp only [hne]
+  simp only [hne, dropS_ite, dropS_bind, dropS_ok]
   by_cases h0 : newmax = 0
   · subst h0
     simp [tableRes, outToR, mapOut, absT]
@@ -129,12 +152,12 @@ theorem maxsize_set_tie (t : Impl.Table) (newmax : Nat) (fuel : Nat) (hf : fuel 
       have habs : absT ({ t with maxsize := newmax, resized := newmax != t.maxsize } : Impl.Table) =
           { absT t with f_maxsize := (newmax : Int), f_resized := (newmax != t.maxsize) } := by simp [absT]
       rw [habs] at hs
-      simp only [hs, bind, Except.bind]
+      simp only [hs]
       unfold tableRes
       cases hl : Impl.Table.shrink ({ t with maxsize := newmax, resized := newmax != t.maxsize } : Impl.Table) with
-      | ok r => simp [outToR, mapOut]
-      | err e => cases e <;> simp [outToR, mapOut]
-      | esc x => cases x <;> simp [outToR, mapOut]
+      | ok r => simp [outToR, mapOut, bind, Except.bind]
+      | err e => cases e <;> simp [outToR, mapOut, bind, Except.bind]
+      | esc x => cases x <;> simp [outToR, mapOut, bind, Except.bind]
     · have hlt' : ¬ ((absT t).f_maxsize > (newmax : Int)) := by simp only [absT]; omega
       simp only [hlt', hlt, if_false]
       simp [tableRes, outToR, mapOut, absT]
@@ -164,12 +187,12 @@ theorem fmtInt_ofNat (i : Nat) :
 large to print -/
 theorem get_by_index_tie (t : Impl.Table) (index : Nat) (fuel : Nat) :
     Src.HeaderTable.get_by_index fuel (absT t) (index : Int) =
-      outToR (mapOut (fun e => (absT t, proj e)) (t.getByIndex index)) := by
+      Py.liftR (absT t) (outToR (mapOut (fun e => (absT t, proj e)) (t.getByIndex index))) := by
   unfold Src.HeaderTable.get_by_index Impl.Table.getByIndex
-  have hfail : (Py.fmtInt (index : Int) >>= fun _ => (.error .invalidTableIndex : Py.R (Src.HeaderTable × (List UInt8 × List UInt8)))) =
-      outToR (mapOut (fun e => (absT t, proj e)) (if index ≥ 10 ^ Impl.maxStrDigits then .esc .valueError else .err .invalidIndex)) := by
+  have hfail : (Py.liftR (absT t) (Py.fmtInt (index : Int)) >>= fun _ => (.error (.invalidTableIndex, absT t) : Py.RS Src.HeaderTable (Src.HeaderTable × (List UInt8 × List UInt8)))) =
+      Py.liftR (absT t) (outToR (mapOut (fun e => (absT t, proj e)) (if index ≥ 10 ^ Impl.maxStrDigits then .esc .valueError else .err .invalidIndex))) := by
     rw [fmtInt_ofNat]
-    by_cases h : index ≥ 10 ^ Impl.maxStrDigits <;> simp [h, outToR, mapOut, bind, Except.bind]
+    by_cases h : index ≥ 10 ^ Impl.maxStrDigits <;> simp [h, outToR, mapOut, bind, Except.bind, Py.liftR]
   by_cases h0 : index = 0
   · subst h0
     have : ¬ ((0 : Int) ≤ ((0 : Nat) : Int) - 1) := by omega
@@ -183,7 +206,7 @@ theorem get_by_index_tie (t : Impl.Table) (index : Nat) (fuel : Nat) :
       simp only [hs', hs, if_true]
       have hget : Gen.staticTable[index - 1]? = some (Gen.staticTable[index - 1]) := List.getElem?_eq_getElem hs
       rw [static_is_generated, seqGet_ofNat _ _ _ hget]
-      simp [Impl.staticEntry, hget, outToR, mapOut, proj, bind, Except.bind]
+      simp [Impl.staticEntry, hget, outToR, mapOut, proj, bind, Except.bind, Py.liftR]
     · have hs' : ¬ (((index - 1 : Nat) : Int) < (Gen.staticTable.length : Int)) := by omega
       simp only [hs', hs, if_false]
       have hsub2 : ((index - 1 : Nat) : Int) - (Gen.staticTable.length : Int) = ((index - 1 - Gen.staticTable.length : Nat) : Int) := by omega
@@ -195,7 +218,7 @@ theorem get_by_index_tie (t : Impl.Table) (index : Nat) (fuel : Nat) :
         have hget2 : (t.entries.map proj)[index - 1 - Gen.staticTable.length]? = some (proj (t.entries[index - 1 - Gen.staticTable.length])) := by
           simp [hget]
         rw [seqGet_ofNat _ _ _ hget2]
-        simp [hget, outToR, mapOut, absT, bind, Except.bind]
+        simp [hget, outToR, mapOut, absT, bind, Except.bind, Py.liftR]
       · have hd' : ¬ (((index - 1 - Gen.staticTable.length : Nat) : Int) < (t.entries.length : Int)) := by omega
         simp only [hd', if_false]
         have hnone : t.entries[index - 1 - Gen.staticTable.length]? = none := List.getElem?_eq_none (by omega)
